@@ -90,6 +90,9 @@ def run_spec(pid, spec):
     c = ctx()
     w = c.world()
     try:
+        spare = (spec.get("cfg") or {}).get("fd_spare")
+        if spare:
+            w.limit_descriptors(spare)      # the simulated machine's open-file limit (marathon sessions)
         res = prop.execute(spec, w, c)
     finally:
         w.close()
